@@ -7,6 +7,7 @@ import sys
 import time
 
 from . import run
+from . import gen
 from .run import Infra
 
 ROOT = run.ROOT
@@ -94,6 +95,23 @@ class Check:
         if not getattr(self, "script_sample", None) and 3 < len(ex.lines) < 60:
             self.script_sample = dict(execution=ex.name, build=ex.variant, script=[l[:160] for l in ex.lines[:25]])
         self.execs.append(ex)
+        # Every check also runs a sample of its executions (a) with model-level no-ops woven in - the dependency set
+        # injected again, the mask changed and restored, unrelated seeds decoded / created / freed, the allocator
+        # refusing during a call - and (b) in the -funsigned-char build: what an operation returns depends on its
+        # arguments, the mask and the injected functions, not on history, allocator mood or the signedness of char
+        if ex.name.endswith(("~p", "~u")) or not any(l.split(" ", 1)[0] in gen.API_OPS for l in ex.lines):
+            return
+        import random
+        import zlib
+        h = zlib.crc32(("%d/%s" % (self.seed, ex.name)).encode())
+        if h % 6 == 0 and len(ex.lines) < 4000:
+            pl = gen.perturb_lines(ex.lines, random.Random(h))
+            if pl != ex.lines:
+                self.execs.append(Exec(ex.name + "~p", pl, variant=ex.variant, note="with model-level no-ops woven in"))
+                self.perturbed = getattr(self, "perturbed", 0) + 1
+        if h % 10 == 1 and ex.variant == "plain":
+            self.execs.append(Exec(ex.name + "~u", ex.lines, variant="uchar", note="the same execution in the -funsigned-char build"))
+            self.uchar_copies = getattr(self, "uchar_copies", 0) + 1
 
     def chunks(self, execs, max_lines):
         cur, n, out = [], 0, []
@@ -282,6 +300,9 @@ class Check:
         )
         if self.exhaustive is not None:
             cov["exhaustive"] = self.exhaustive
+        if getattr(self, "perturbed", 0) or getattr(self, "uchar_copies", 0):
+            cov["executions_repeated_with_model_level_no_ops_woven_in"] = getattr(self, "perturbed", 0)
+            cov["executions_repeated_in_the_unsigned_char_build"] = getattr(self, "uchar_copies", 0)
         if getattr(self, "unavailable", None):
             cov["internal_observations_unavailable_in_this_tree"] = sorted(self.unavailable)
         if getattr(self, "swept", 0):
